@@ -300,9 +300,13 @@ func (s *EMTState) edgeMultiComputeRecordSpecs(raw []RawType, frameIndexOfraw0 F
 	// EMTState.valid, which is checked on reset, makes sue npre and (nsamp-npre) are each 4 or greater, so the kink
 	// model can always look at least 4 samples back and 4 forward
 	maxNmonotone := maxLookahead
-	iFirst := int32(s.nextFrameIndexToInspect - frameIndexOfraw0)
+	// Compare before narrowing to 32 bits: in the reset state nextFrameIndexToInspect is 0 and
+	// the difference is minus the current frame number, which wraps to an arbitrary int32 once
+	// the source has delivered more than 2^31 frames.
+	iFirst64 := s.nextFrameIndexToInspect - frameIndexOfraw0
+	iFirst := int32(iFirst64)
 	recordSpecs := make([]RecordSpec, 0)
-	if iFirst < maxLookback { // state has been reset
+	if iFirst64 < FrameIndex(maxLookback) { // state has been reset
 		iFirst = maxLookback
 		if s.enableZeroThreshold {
 			// The kink model can move a trigger one sample earlier than the edge it refines;
